@@ -45,6 +45,15 @@ ATTR_HEAVY = [
 ]
 
 
+TEXT_DOCS = [
+    '<svg xmlns="http://www.w3.org/2000/svg" viewBox="0 0 100 100" fill="red" stroke="blue" stroke-width="2" fill-opacity=".5" stroke-linejoin="round" stroke-miterlimit="3" clip-rule="evenodd" fill-rule="evenodd">'
+    '<g fill="green" stroke-linecap="round" stroke-opacity=".25" style="stroke-dasharray:3 1;stroke-dashoffset:2"><text x="5" y="20" opacity=".5">hi <tspan dy="5" fill="black">there</tspan></text>'
+    '<rect x="10" y="30" width="20" height="20"/></g><text x="5" y="80" transform="rotate(5)">plain<tspan>b</tspan></text></svg>',
+    '<svg xmlns="http://www.w3.org/2000/svg" viewBox="0 0 50 50" style="fill:navy;stroke:none;fill-opacity:.9"><g stroke="red" stroke-width="3" stroke-dasharray="1 2" display="inline" color="teal"><g fill-rule="evenodd" stroke-linecap="square">'
+    '<text x="1" y="10">a</text><text x="1" y="20" clip-path="none">b</text></g></g><circle cx="25" cy="25" r="10"/></svg>',
+]
+
+
 def corpus(tier):
     docs = []
     for k in G.kinds("base"):
@@ -72,12 +81,18 @@ def corpus(tier):
         if tier == "quick" and (len(s) > 4000 or "-nano" in n):
             continue
         docs.append(s)
-    # unique, order preserved
+    # unique, order preserved; every entry is [document, options]
     seen, out = set(), []
     for d in docs:
         if d not in seen:
             seen.add(d)
-            out.append(d)
+            out.append([d, {}])
+    # the options are part of the function's input: text pass-through and dropping of unsupported elements
+    for d in TEXT_DOCS:
+        out.append([d, {"allow_text": True}])
+        out.append([d, {"allow_text": True, "drop_unsupported": True}])
+    for k in ("image", "mask", "filter", "a", "gop:rect+image", "Ngop.gop.unsup.after"):
+        out.append([G.document([k, "lingrad"], "stroke"), {"drop_unsupported": True}])
     return out
 
 
@@ -90,7 +105,7 @@ idx = json.loads(sys.argv[2])
 out = {}
 for i in idx:
     try:
-        o = SVG.fromstring(docs[i]).topicosvg().tostring()
+        o = SVG.fromstring(docs[i][0]).topicosvg(**docs[i][1]).tostring()
         out[i] = hashlib.sha256(o.encode()).hexdigest()
     except Exception as e:
         out[i] = 'EXC:' + type(e).__name__
@@ -110,14 +125,15 @@ def _subproc(args):
 
 
 def _cli(args):
-    doc, seed = args
+    (doc, opts), seed = args
     env = dict(os.environ)
     env["PYTHONHASHSEED"] = str(seed)
     env["PYTHONPATH"] = "/repo/src"
     with tempfile.TemporaryDirectory() as td:
         f = os.path.join(td, "in.svg")
         open(f, "w").write(doc)
-        p = subprocess.run([sys.executable, "-m", "picosvg.picosvg", f], stdout=subprocess.PIPE, stderr=subprocess.PIPE, text=True, env=env, timeout=300)
+        flags = [f"--{k}" for k, v in opts.items() if v]
+        p = subprocess.run([sys.executable, "-m", "picosvg.picosvg", f] + flags, stdout=subprocess.PIPE, stderr=subprocess.PIPE, text=True, env=env, timeout=300)
     if p.returncode != 0:
         return "EXC"
     return hashlib.sha256(p.stdout.encode()).hexdigest()
@@ -242,11 +258,12 @@ def process_canon():
     return h.hexdigest()[:20]
 
 
-def _convert_hash(doc):
+def _convert_hash(item):
     from picosvg.svg import SVG
 
+    doc, opts = item
     try:
-        o = SVG.fromstring(doc).topicosvg().tostring()
+        o = SVG.fromstring(doc).topicosvg(**opts).tostring()
         return hashlib.sha256(o.encode()).hexdigest()
     except Exception as e:  # noqa
         return "EXC:" + type(e).__name__
@@ -369,12 +386,13 @@ def run(run):
                 if hsh != solo.get(i):
                     run.add_violation(
                         {"kind": "hash-seed-or-batch", "seed": seed},
-                        {"fam": "seed", "doc": docs[i], "seed": seed},
+                        {"fam": "seed", "doc": docs[i][0], "opts": docs[i][1], "seed": seed},
                         {"why": f"document #{i} converted in a long-lived process with PYTHONHASHSEED={seed} after documents 0..{i-1}: {hsh[:12]} != solo {str(solo.get(i))[:12]}"},
                     )
         run.log(f"part A seeds done: {len(seeds)} processes")
         # CLI
-        cli_docs = [d for i, d in enumerate(docs) if not str(solo.get(i, "EXC")).startswith("EXC")][:20]
+        ok_docs = [d for i, d in enumerate(docs) if not str(solo.get(i, "EXC")).startswith("EXC")]
+        cli_docs = ok_docs[:16] + [d for d in ok_docs if d[1]][:6]
         cli_seeds = seeds[:4]
         jobs = [(d, s) for d in cli_docs for s in cli_seeds]
         res = list(core.pmap(_cli, jobs, chunksize=1))
@@ -382,11 +400,12 @@ def run(run):
             hs = {res[k * len(cli_seeds) + j] for j in range(len(cli_seeds))}
             trans += len(cli_seeds)
             if len(hs) != 1:
-                run.add_violation({"kind": "cli-seed"}, {"fam": "cli", "doc": d}, {"why": f"CLI output differs across hash seeds {cli_seeds}"})
+                run.add_violation({"kind": "cli-seed"}, {"fam": "cli", "doc": d[0], "opts": d[1]}, {"why": f"CLI output differs across hash seeds {cli_seeds}"})
     # Part B
     alpha = list(range(len(docs)))
     if run.tier == "quick":
-        alpha = [i for i in alpha if not str(solo.get(i, "EXC")).startswith("EXC")][:40]
+        okidx = [i for i in alpha if not str(solo.get(i, "EXC")).startswith("EXC")]
+        alpha = okidx[:34] + [i for i in okidx if docs[i][1]][:8]
     n_states = 0
     canons = {}
     t0 = time.time()
@@ -415,7 +434,7 @@ def run(run):
                 frontier.remove(canons[post])  # reached at depth 1 as well: expanded by the pair runs already
                 canons[post] = (a,)
         if len(samples) < 3 and hist:
-            samples.append({"history": [docs[i][:200] for i in hist], "then": "every document of the alphabet, one fork each"})
+            samples.append({"history": [docs[i][0][:200] for i in hist], "then": "every document of the alphabet, one fork each"})
     run.log(f"part B pairs done: states={len(canons)} t={time.time()-t0:.1f}s frontier={len(frontier)}")
     depth = 2
     closed = not frontier
@@ -460,8 +479,8 @@ def run(run):
     run.cov["explanation"] = "every transition is a real conversion in a real process; fork is the state snapshot"
     for i, v in solo.items():
         if not v.startswith("EXC"):
-            run.nt.add(core.h64(docs[i]))
-    run.samples = samples or [{"doc": docs[0][:300]}]
+            run.nt.add(core.h64(json.dumps(docs[i])))
+    run.samples = samples or [{"doc": docs[0][0][:300]}]
     run.exhaustive = bool(closed)
     run.assumptions = [
         "state hidden inside C extensions (lxml's global dictionaries, Skia) is not part of the process digest; Part A and the permutation runs are the only evidence about it",
@@ -485,7 +504,7 @@ def replay(case):
     if fam in ("seed", "cli"):
         with tempfile.TemporaryDirectory() as td:
             path = os.path.join(td, "docs.json")
-            json.dump([case["doc"]], open(path, "w"))
+            json.dump([[case["doc"], case.get("opts", {})]], open(path, "w"))
             hs = {json.dumps(_subproc((path, [0], s))) for s in (0, case.get("seed", 1), 7, 1234)}
         if len(hs) != 1:
             return [{"sig": {"kind": "hash-seed-or-batch"}, "case": case, "detail": {"why": f"output differs across hash seeds: {hs}"}}]
